@@ -4,6 +4,7 @@ import RbV.Model.FMDRev
 import RbV.Model.FMDSym
 import RbV.Lemmas.SmemsFmd
 import RbV.Lemmas.FmdBridge
+import RbV.Lemmas.FmdInitExt
 /-!
 # C06 — FMD-index: SMEMs on both strands, `all_smems`, bi-interval extension
 
@@ -439,6 +440,49 @@ theorem all_smems_bi_model_correct_of_checkSA (seqs : List (List Nat)) (sa pat :
       ((SmemModel.allSmems (SmemModel.biOps (LF.lessRef (LF.bwtOf (fmdText seqs) sa))
         (LF.occRef (LF.bwtOf (fmdText seqs) sa))) pat l).map SmemModel.hitObs) :=
   all_smems_bi_model_correct seqs sa pat hne hseqs (sortedAllB_of_checkSA seqs sa hne hseqs hc) hpat l hl
+
+/-! ### the two cases `chain_correct` leaves out: extension of `init_interval()` and of an empty bi-interval -/
+
+/-- **extension of `init_interval()`** (the bi-interval of the empty string, `[0, n)` on both strands): on every FMD
+index, `backward_ext(init_interval(), a)` and `forward_ext(init_interval(), a)` both equal `init_interval_with(a)` —
+field by field, `match_size` included — for every `a` of `ACGTNacgtn`, hence are the bi-interval of the one-symbol
+string `a` -/
+theorem init_interval_ext_correct (seqs : List (List Nat)) (sa : List Nat) (a : Nat)
+    (hne : seqs ≠ []) (hseqs : ∀ s ∈ seqs, ∀ c ∈ s, FMDModel.isDna c = true)
+    (hchk : LF.sortedAllB (fmdText seqs) sa = true) (ha : FMDModel.isDna a = true) :
+    FMDModel.backwardExt (LF.lessRef (LF.bwtOf (fmdText seqs) sa)) (LF.occRef (LF.bwtOf (fmdText seqs) sa))
+        (FMDModel.initInterval sa.length) a = FMDModel.initIntervalWith (LF.lessRef (LF.bwtOf (fmdText seqs) sa)) a ∧
+    FMDModel.forwardExt (LF.lessRef (LF.bwtOf (fmdText seqs) sa)) (LF.occRef (LF.bwtOf (fmdText seqs) sa))
+        (FMDModel.initInterval sa.length) a = FMDModel.initIntervalWith (LF.lessRef (LF.bwtOf (fmdText seqs) sa)) a ∧
+    FMDSym.BiOf (fmdText seqs) sa [a]
+      (FMDModel.backwardExt (LF.lessRef (LF.bwtOf (fmdText seqs) sa)) (LF.occRef (LF.bwtOf (fmdText seqs) sa))
+        (FMDModel.initInterval sa.length) a) := by
+  have hperm : sa.Perm (List.range (fmdText seqs).length) := by
+    simp only [LF.sortedAllB, Bool.and_eq_true] at hchk
+    exact List.isPerm_iff.mp hchk.1
+  have h1 := SmemModel.backwardExt_initInterval seqs sa hne hseqs hperm a ha
+  refine ⟨h1, SmemModel.forwardExt_initInterval seqs sa hne hseqs hperm a ha, ?_⟩
+  rw [h1]
+  exact init_interval_with_correct seqs sa a hne hchk ha
+
+/-- **extension of an empty bi-interval**: for any `less`/`occ`, any symbol `a`, extending an empty bi-interval whose
+lower bound on the extended strand's side is non-zero gives an empty bi-interval (`occ(lower−1,·) − occ(lower−1,·)`).
+In `smems` the only empty interval that is ever extended is `init_interval_with(pattern[i])` of a symbol that does
+not occur; its bounds are `less(a)`, `less(complement a) ≥ 1` on an FMD index (`SmemModel.less_pos`).  (With
+`lower = 0` the Rust expression `interval.lower + interval.size - 1` would underflow.) -/
+theorem ext_of_empty_is_empty (less : Nat → Nat) (occ : Nat → Nat → Nat) (iv : FMDModel.Bi) (a : Nat)
+    (h0 : iv.size = 0) :
+    (iv.lower ≠ 0 → (FMDModel.backwardExt less occ iv a).size = 0) ∧
+    (iv.lowerRev ≠ 0 → (FMDModel.forwardExt less occ iv a).size = 0) :=
+  ⟨fun h => SmemModel.backwardExt_dead less occ iv a h0 h, fun h => SmemModel.forwardExt_dead less occ iv a h0 h⟩
+
+-- the doc-test index: `backward_ext(init_interval(), T)` through the theorem; an empty interval (`N` does not occur)
+example : FMDModel.backwardExt (LF.lessRef (LF.bwtOf T0 sa0)) (LF.occRef (LF.bwtOf T0 sa0)) (FMDModel.initInterval sa0.length) 84
+    = FMDModel.initIntervalWith (LF.lessRef (LF.bwtOf T0 sa0)) 84 :=
+  (init_interval_ext_correct [[65, 84, 84, 67]] sa0 84 (by decide) (by decide) (by decide) (by decide)).1
+example : (FMDModel.initIntervalWith (LF.lessRef bw0) 78).size = 0 ∧ (FMDModel.initIntervalWith (LF.lessRef bw0) 78).lower ≠ 0 ∧
+    (FMDModel.backwardExt (LF.lessRef bw0) (LF.occRef bw0) (FMDModel.initIntervalWith (LF.lessRef bw0) 78) 65).size = 0 := by
+  decide
 
 section sweep_examples
 -- T = ATTC$GAAT$: the doc test `smems(ATT, 2, ·)` and pattern ATG (matches AT and G)
